@@ -1373,9 +1373,11 @@ class C15(Property):
             vs = case["nodes"]
             if len(vs) <= 1:
                 return []
-            h = len(vs) // 2
-            return [dict(case, nodes=vs[:h]), dict(case, nodes=vs[h:])] + \
-                   [dict(case, nodes=vs[:i] + vs[i + 1:]) for i in range(len(vs))][:80]
+            if len(vs) > 12:     # chunks only: the class clause is quadratic in the number of values
+                q = max(1, len(vs) // 8)
+                return [dict(case, nodes=vs[i:i + q]) for i in range(0, len(vs), q)] + \
+                       [dict(case, nodes=vs[:len(vs) // 2]), dict(case, nodes=vs[len(vs) // 2:])]
+            return [dict(case, nodes=vs[:i] + vs[i + 1:]) for i in range(len(vs))]
         if case.get("kind") == "conc" and any(not isinstance(st, int) and st[0] == "h" for st in case["sched"]):
             # schedules with a held hashing: cut the schedule after a step; fewer calls inside the window; fewer probes
             res = []
